@@ -293,7 +293,7 @@ impl CheckDef for E2e {
 }
 
 pub fn run(ctx: &mut Ctx) {
-    ctx.rule("E2E: link MTU 49..9000 per side, true path MTU between the protocol minimum and the smaller link MTU (symmetric; 15 % asymmetric), IPv4/IPv6, silent blackhole or EMSGSIZE on the local link, mtu_probe_max_retransmissions 0..3, fair loss of non-probe datagrams in half of the cases, bulk transfer of 120/400 maximum-size segments plus optional reverse traffic. Oracle: every emitted datagram fits the emitter's link MTU (whatever the peer sends); first transmissions above the proven size (protocol minimum, own acked sizes, received sizes clamped to the link) are probes: one outstanding at a time and the newest segment; C01 integrity; the steady segment size at the end equals the largest payload that fits and the number of probes is <= 2*ceil(log2(range)) + 3. non-trivial = fitting size strictly between minimum and link size, >= 2 probes, >= 1 probe stopped by the path/link; distinct by (target, link MTU, probes, family, drops)");
+    ctx.rule("E2E: link MTU over the whole range of the option per side (58..65535, one case in five above 9000), true path MTU between the protocol minimum and the smaller link MTU (symmetric; 15 % asymmetric), IPv4/IPv6, silent blackhole or EMSGSIZE on the local link, mtu_probe_max_retransmissions 0..3, fair loss of non-probe datagrams in half of the cases, bulk transfer of 120/400 maximum-size segments plus optional reverse traffic. Oracle: every emitted datagram fits the emitter's link MTU (whatever the peer sends); first transmissions above the proven size (protocol minimum, own acked sizes, received sizes clamped to the link) are probes: one outstanding at a time and the newest segment; C01 integrity; the steady segment size at the end equals the largest payload that fits and the number of probes is <= 2*ceil(log2(range)) + 3. non-trivial = fitting size strictly between minimum and link size, >= 2 probes, >= 1 probe stopped by the path/link; distinct by (target, link MTU, probes, family, drops)");
     ctx.assume("probes themselves are exempt from the random fault plan (the property speaks of loss of non-probe packets)");
     ctx.replay_corpus::<E2e>();
     ctx.run_generated::<E2e>(ctx.tier.pick(12_000, 400_000));
